@@ -17,7 +17,9 @@ Judged:
      converting that back to a pair and forth again is the same value.
 Not judged (counted as no verdict): values that Tezos itself cannot address (a %default branch exists, the root is
 unannotated, and no node on the value's path is annotated: Tezos rejects such a type as Unreachable_entrypoint)
-unless the library lists a non-colliding root name; the unlisted implicit `default` of an ANNOTATED root.
+unless the library lists a non-colliding root name; the unlisted implicit `default` of an ANNOTATED root; what the name
+`root` lists/denotes when the library uses it for an unannotated root while a branch is annotated %root too (only the
+statement's own value -> pair -> value round trip is judged there, see COLLIDE).
 """
 from __future__ import annotations
 
@@ -368,7 +370,7 @@ def run_shard(spec, tier):
         t = build(shape, ann)
         assert ref.all_names(t) == [x for x in ann if x] and not ref.has_duplicates(t)
         case = run_type(r, t)
-        if i == 0 or (i == 7 and len(r.samples) < 2):
+        if n > 1 and i in (0, 7):
             r.sample(case)
     if case is not None:
         r.sample(case)
